@@ -198,3 +198,22 @@ pub fn c14_urldecode_tail<const T: usize>() {
     kani::cover!(r.is_err(), "rejected");
     std::mem::forget(r);
 }
+
+/// Truncated escape at the end (cheap: one symbolic byte, concrete structure):
+/// 19 fixed raw units + "%" + one arbitrary ASCII byte, or + "%" alone: always rejected, never panics.
+pub fn c14_urldecode_trunc(with_digit: bool) {
+    let mut buf = [b'a'; 24];
+    buf[19] = b'%';
+    let mut n = 20;
+    if with_digit {
+        let x: u8 = kani::any();
+        kani::assume(x < 0x80);
+        buf[20] = x;
+        n = 21;
+    }
+    let s = unsafe { std::str::from_utf8_unchecked(&buf[..n]) };
+    let r = urldecode_20_bytes(s);
+    assert!(r.is_err(), "identifier ending in a truncated percent escape accepted");
+    kani::cover!(r.is_err(), "rejected");
+    std::mem::forget(r);
+}
